@@ -13,9 +13,28 @@ PREDS = {
     'b_strlen': lambda b: len(b) if isinstance(b, str) else 0,
     'a_is_b': lambda a, b: a is b and (a is None or (isinstance(a, float) and a != a)),
 }
+def _above(k):
+    return lambda a: isinstance(a, (int, float)) and a > k
+# closures made by one factory share their code object: a memo keyed on the code would confuse them
+PREDS.update({'a_above_1': _above(1), 'a_above_2': _above(2), 'a_above_0': _above(0)})
 REGEX = {'has_a': re.compile('a'), 'starts_b': re.compile('^b'), 'ends_b': re.compile('b$'),
          'any': re.compile(''), 'nothing': re.compile('q')}
 STRU = ["", "a", "b", "ab", "ba", "abc", "B", "xyz"]
+
+
+LASTARGS = [()]
+FILTER_BEFORE = [[]]
+
+
+def enc_filter(args, ids):
+    """the dict of conditions handed to the call, as the caller sees it (before / after)"""
+    if not args or not isinstance(args[0], dict):
+        return []
+    def e(v):
+        if isinstance(v, list): return ['list', [tag(x, ids) for x in v]]
+        if hasattr(v, 'pattern'): return ['re', v.pattern]
+        return ['val', tag(v, ids)]
+    return [[c, e(v)] for c, v in sorted(args[0].items())]
 
 
 def cell_cond(cc, ids):
@@ -35,7 +54,13 @@ def call(d, op, cond, ids, spelling, col=None):
         args, kw = (PREDS[cond['name']],), {}
     else:
         flt = {c: cell_cond(cc, ids) for c, cc in cond['items']}
-        args, kw = ((), flt) if spelling == 'kw' else ((flt,), {})
+        if spelling == 'mixed' and len(flt) >= 2:       # the first condition in a dict, the others as keywords
+            c0 = cond['items'][0][0]
+            args, kw = ({c0: flt[c0]},), {c: v for c, v in flt.items() if c != c0}
+        else:
+            args, kw = ((), flt) if spelling == 'kw' else ((flt,), {})
+    LASTARGS[0] = args
+    FILTER_BEFORE[0] = enc_filter(args, ids)
     try:
         if op == 'inc':
             res = d.inc(*args, **kw)
@@ -79,14 +104,19 @@ def observe_one2(abs_t, cond, excl, find, spelling):
             out = {'kind': 'row', 'row': {k: tag(v, ids) for k, v in res.items()}}
     except Exception as e:
         out = {'kind': 'exc', 'cls': type(e).__name__}
-    return {'op': 'one2', 't': abs_t, 'cond': cond, 'excl': excl, 'find': find, 'out': out, 'after': proj_table(d, ids), 'spelling': spelling}
+    return {'op': 'one2', 't': abs_t, 'cond': cond, 'excl': excl, 'find': find, 'out': out, 'after': proj_table(d, ids), 'spelling': spelling,
+            'filter_after': [], 'filter_before': []}
 
 
 def observe(abs_t, cond, op, spelling, col=None):
     ids = IdMap()
     d = table_from(abs_t, ids)
+    import copy as _copy
+    out = None
+    # the filter dict is encoded before the call from a deep copy made inside call(); here we re-run the encoding on the live object
     out = call(d, op, cond, ids, spelling, col)
-    o = {'op': op, 't': abs_t, 'cond': cond, 'out': out, 'after': proj_table(d, ids), 'spelling': spelling}
+    o = {'op': op, 't': abs_t, 'cond': cond, 'out': out, 'after': proj_table(d, ids), 'spelling': spelling,
+         'filter_after': enc_filter(LASTARGS[0], ids), 'filter_before': FILTER_BEFORE[0]}
     if col:
         o['col'] = col
     return o
@@ -155,7 +185,7 @@ def c2s(ctx, ntables):
         t, sub = rand_table(ctx.rng, 30)
         for j in range(4):
             cond = rand_cond(ctx.rng, t, sub)
-            sp = 'pred' if cond['kind'] == 'pred' else ctx.rng.choice(['kw', 'dict'])
+            sp = 'pred' if cond['kind'] == 'pred' else ctx.rng.choice(['kw', 'dict', 'mixed'])
             for op in ('inc', 'exc', 'one'):
                 obs.append(observe(t, cond, op, sp))
             obs.append(observe(t, cond, 'find', sp, ctx.rng.choice(t['cols'])))
